@@ -807,4 +807,272 @@ Proof.
     + left. apply ext_err, generic_not_nil.
 Qed.
 
+
+(* ---- jstep in a given state ---- *)
+Ltac ex_tac := intros p s b H; unfold jstep; rewrite H; reflexivity.
+Lemma jstep_start : forall p s b, jp_cur p = jStart -> jstep pf p s b = step_value pf p s b jStart.
+Proof. ex_tac. Qed.
+Lemma jstep_dict : forall p s b, jp_cur p = jDict -> jstep pf p s b = step_dict p s b true.
+Proof. ex_tac. Qed.
+Lemma jstep_dictnext : forall p s b, jp_cur p = jDictNextField -> jstep pf p s b = step_dict p s b false.
+Proof. ex_tac. Qed.
+Lemma jstep_dictfield : forall p s b, jp_cur p = jDictField -> jstep pf p s b = step_dict_key p s b.
+Proof. ex_tac. Qed.
+Lemma jstep_sep : forall p s b, jp_cur p = jDictFieldValueSep ->
+  jstep pf p s b = match trim_left b with
+                   | [] => JS p s [] false jpnil
+                   | x :: r => JS (jset_cur p jDictFieldValue) s r false (if x =? 58 then jpnil else jeGeneric)
+                   end.
+Proof. ex_tac. Qed.
+Lemma jstep_dictvalue : forall p s b, jp_cur p = jDictFieldValue ->
+  jstep pf p s b = step_value pf p s b jDictFieldStateEnd.
+Proof. ex_tac. Qed.
+Lemma jstep_dictend : forall p s b, jp_cur p = jDictFieldStateEnd -> jstep pf p s b = step_dict_value_end p s b.
+Proof. ex_tac. Qed.
+Lemma jstep_arr : forall p s b, jp_cur p = jArr -> jstep pf p s b = step_array p s b.
+Proof. ex_tac. Qed.
+Lemma jstep_arrvalue : forall p s b, jp_cur p = jArrValue ->
+  jstep pf p s b = match step_value pf p s b jArrNext with JS p1 s1 r _ e => JS p1 s1 r false e | x => x end.
+Proof. ex_tac. Qed.
+Lemma jstep_arrnext : forall p s b, jp_cur p = jArrNext -> jstep pf p s b = step_arr_value_end p s b.
+Proof. ex_tac. Qed.
+Lemma jstep_null : forall p s b, jp_cur p = jNull -> jstep pf p s b = step_kind p s b kNull (EVal SNil).
+Proof. ex_tac. Qed.
+Lemma jstep_true : forall p s b, jp_cur p = jTrue -> jstep pf p s b = step_kind p s b kTrue (EVal (SBool true)).
+Proof. ex_tac. Qed.
+Lemma jstep_false : forall p s b, jp_cur p = jFalse -> jstep pf p s b = step_kind p s b kFalse (EVal (SBool false)).
+Proof. ex_tac. Qed.
+Lemma jstep_string : forall p s b, jp_cur p = jString -> jstep pf p s b = step_string p s b.
+Proof. ex_tac. Qed.
+Lemma jstep_number : forall p s b, jp_cur p = jNumber -> jstep pf p s b = step_number pf p s b.
+Proof. ex_tac. Qed.
+Lemma jstep_other : forall p s b, jp_cur p < 0 \/ 15 < jp_cur p -> jstep pf p s b = JS p s b false jeGeneric.
+Proof.
+  intros p s b H. unfold jstep.
+  repeat match goal with |- context [jp_cur p =? ?c] =>
+    let E := fresh "E" in destruct (jp_cur p =? c) eqn:E; [exfalso; ust; lia|clear E] end.
+  reflexivity.
+Qed.
+
+(* ---- leaves ---- *)
+Lemma step_kind_dich : forall p s a b kind ev,
+  (forall q s' b', jp_cur q = jp_cur p -> jstep pf q s' b' = step_kind q s' b' kind ev) ->
+  0 <= jp_req p <= zlen kind -> Forall ret_state (jp_states p) ->
+  Dich b (step_kind p s a kind ev) (step_kind p s (a ++ b) kind ev).
+Proof.
+  intros p s a b kind ev Hj Hn HF.
+  pose proof (step_kind_dich0 p s a b kind ev Hn HF) as H.
+  destruct (step_kind p s a kind ev) as [p1 s1 rest d e|w]; [|exact I].
+  cbn [Dich]. destruct H as [H|(H1 & H2 & H3 & H4)]; [left; exact H|].
+  right. rewrite (Hj p1 s1 b H3). auto.
+Qed.
+
+Lemma step_string_dich : forall p s a b, jp_cur p = jString -> a <> [] ->
+  Dich b (step_string p s a) (step_string p s (a ++ b)).
+Proof.
+  intros p s a b Hc Ha. unfold step_string.
+  pose proof (do_string_app p a b Ha) as H. pose proof (do_string_same p a) as Hs.
+  destruct (do_string p a) as [p1|p1 c r|p1|w].
+  - destruct Hs as (H1 & _). cbn [Dich]. right. split; [reflexivity|]. split; [reflexivity|].
+    rewrite H. rewrite jstep_string by congruence. apply ext_refl.
+  - rewrite H. destruct (jvis s _) as [s1 e]. apply Dich_ext, ext_same.
+  - rewrite H. apply Dich_ext, ext_err, generic_not_nil.
+  - exact I.
+Qed.
+
+Lemma step_dict_key_dich : forall p s a b, jp_cur p = jDictField -> a <> [] ->
+  Dich b (step_dict_key p s a) (step_dict_key p s (a ++ b)).
+Proof.
+  intros p s a b Hc Ha. unfold step_dict_key.
+  pose proof (do_string_app p a b Ha) as H. pose proof (do_string_same p a) as Hs.
+  destruct (do_string p a) as [p1|p1 c r|p1|w].
+  - destruct Hs as (H1 & _). cbn [Dich]. right. split; [reflexivity|]. split; [reflexivity|].
+    rewrite H. rewrite jstep_dictfield by congruence. apply ext_refl.
+  - rewrite H. destruct (jvis s _) as [s1 e]. apply Dich_ext, ext_same.
+  - rewrite H. apply Dich_ext, ext_err, generic_not_nil.
+  - exact I.
+Qed.
+
+Lemma step_number_dich : forall p s a b, jp_cur p = jNumber ->
+  Dich b (step_number pf p s a) (step_number pf p s (a ++ b)).
+Proof.
+  intros p s a b Hc.
+  destruct (scan_number a (jp_isdbl p) 0) as [[i|] d] eqn:Es.
+  - rewrite (step_number_app_found p s a b i d Es). apply Dich_ext, ext_app.
+  - destruct (step_number_app_more p s a b d Es) as [H1 H2]. rewrite H1, H2.
+    cbn [Dich]. right. split; [reflexivity|]. split; [reflexivity|].
+    rewrite jstep_number by (js; exact Hc). apply ext_refl.
+Qed.
+
+
+(* ---- containers and separators ---- *)
+Lemma end_container_dich : forall p s c r b ev,
+  Dich b (end_container p s (c :: r) ev) (end_container p s (c :: r ++ b) ev).
+Proof.
+  intros. unfold end_container. destruct (jvis s ev) as [s1 e]. apply Dich_ext, ext_same.
+Qed.
+
+Ltac dich_ws Hj Et :=
+  rewrite (trim_left_app_nil _ _ Et); cbn [Dich]; right;
+  split; [reflexivity|]; split; [reflexivity|]; rewrite Hj; apply ext_refl.
+
+Lemma step_dict_dich : forall p s a b ae,
+  (forall b', jstep pf p s b' = step_dict p s b' ae) ->
+  Dich b (step_dict p s a ae) (step_dict p s (a ++ b) ae).
+Proof.
+  intros p s a b ae Hj. unfold step_dict at 1 2.
+  destruct (trim_left a) as [|c r] eqn:Et.
+  - rewrite (trim_left_app_nil _ _ Et). cbn [Dich]. right.
+    split; [reflexivity|]. split; [reflexivity|]. rewrite Hj. unfold step_dict. apply ext_refl.
+  - rewrite (trim_left_app_cons _ _ _ _ Et).
+    destruct (c =? 125).
+    { destruct (negb ae); [apply Dich_ext, ext_err, generic_not_nil|apply end_container_dich]. }
+    destruct (c =? 34); [apply Dich_ext; exact (ext_same b _ s (c :: r) _ _ _)|apply Dich_ext, ext_err, generic_not_nil].
+Qed.
+
+Lemma sep_dich : forall p s a b, jp_cur p = jDictFieldValueSep ->
+  Dich b (jstep pf p s a) (jstep pf p s (a ++ b)).
+Proof.
+  intros p s a b Hc. rewrite !(jstep_sep p s _ Hc).
+  destruct (trim_left a) as [|c r] eqn:Et.
+  - rewrite (trim_left_app_nil _ _ Et). cbn [Dich]. right.
+    split; [reflexivity|]. split; [reflexivity|]. rewrite (jstep_sep p s _ Hc). apply ext_refl.
+  - rewrite (trim_left_app_cons _ _ _ _ Et). apply Dich_ext, ext_same.
+Qed.
+
+Lemma step_dict_value_end_dich : forall p s a b, jp_cur p = jDictFieldStateEnd ->
+  Dich b (step_dict_value_end p s a) (step_dict_value_end p s (a ++ b)).
+Proof.
+  intros p s a b Hc. unfold step_dict_value_end at 1 2.
+  destruct (trim_left a) as [|c r] eqn:Et.
+  - rewrite (trim_left_app_nil _ _ Et). cbn [Dich]. right.
+    split; [reflexivity|]. split; [reflexivity|]. rewrite (jstep_dictend p s _ Hc).
+    unfold step_dict_value_end. apply ext_refl.
+  - rewrite (trim_left_app_cons _ _ _ _ Et).
+    destruct (c =? 125); [apply end_container_dich|].
+    destruct (c =? 44); [apply Dich_ext, ext_same|apply Dich_ext, ext_err, generic_not_nil].
+Qed.
+
+Lemma step_array_dich : forall p s a b, jp_cur p = jArr ->
+  Dich b (step_array p s a) (step_array p s (a ++ b)).
+Proof.
+  intros p s a b Hc. unfold step_array at 1 2.
+  destruct (trim_left a) as [|c r] eqn:Et.
+  - rewrite (trim_left_app_nil _ _ Et). cbn [Dich]. right.
+    split; [reflexivity|]. split; [reflexivity|]. rewrite (jstep_arr p s _ Hc).
+    unfold step_array. apply ext_refl.
+  - rewrite (trim_left_app_cons _ _ _ _ Et).
+    destruct (c =? 93); [apply end_container_dich|].
+    apply Dich_ext; exact (ext_same b _ s (c :: r) _ _ _).
+Qed.
+
+Lemma step_arr_value_end_dich : forall p s a b, jp_cur p = jArrNext ->
+  Dich b (step_arr_value_end p s a) (step_arr_value_end p s (a ++ b)).
+Proof.
+  intros p s a b Hc. unfold step_arr_value_end at 1 2.
+  destruct (trim_left a) as [|c r] eqn:Et.
+  - rewrite (trim_left_app_nil _ _ Et). cbn [Dich]. right.
+    split; [reflexivity|]. split; [reflexivity|]. rewrite (jstep_arrnext p s _ Hc).
+    unfold step_arr_value_end. apply ext_refl.
+  - rewrite (trim_left_app_cons _ _ _ _ Et).
+    destruct (c =? 93); [apply end_container_dich|].
+    destruct (c =? 44); [apply Dich_ext, ext_same|apply Dich_ext, ext_err, generic_not_nil].
+Qed.
+
+(* ---- values ---- *)
+Lemma step_value_dich : forall p s a b ret,
+  (forall b', ext [] (jstep pf p s b') (step_value pf p s b' ret)) ->
+  ret_state ret -> Forall ret_state (jp_states p) ->
+  Dich b (step_value pf p s a ret) (step_value pf p s (a ++ b) ret).
+Proof.
+  intros p s a b ret Hj Hret HF. unfold step_value at 1 2.
+  destruct (trim_left a) as [|c r] eqn:Et.
+  - rewrite (trim_left_app_nil _ _ Et). cbn [Dich]. right.
+    split; [reflexivity|]. split; [reflexivity|]. exact (Hj b).
+  - rewrite (trim_left_app_cons _ _ _ _ Et).
+    assert (HF' : Forall ret_state (if ret =? jFailed then jp_states p else ret :: jp_states p)).
+    { destruct (ret =? jFailed); [exact HF|constructor; assumption]. }
+    destruct (c =? 123). { destruct (jvis s _) as [s1 e]. apply Dich_ext, ext_same. }
+    destruct (c =? 91). { destruct (jvis s _) as [s1 e]. apply Dich_ext, ext_same. }
+    destruct (c =? 110).
+    { apply step_kind_dich.
+      - intros q s' b' Hq. apply jstep_null. rewrite Hq. reflexivity.
+      - js. unfold zlen, kNull. cbn [length]. lia.
+      - js. exact HF'. }
+    destruct (c =? 102).
+    { apply step_kind_dich.
+      - intros q s' b' Hq. apply jstep_false. rewrite Hq. reflexivity.
+      - js. unfold zlen, kFalse. cbn [length]. lia.
+      - js. exact HF'. }
+    destruct (c =? 116).
+    { apply step_kind_dich.
+      - intros q s' b' Hq. apply jstep_true. rewrite Hq. reflexivity.
+      - js. unfold zlen, kTrue. cbn [length]. lia.
+      - js. exact HF'. }
+    destruct (c =? 34).
+    { change (c :: r ++ b) with ((c :: r) ++ b). apply step_string_dich; [reflexivity|discriminate]. }
+    destruct (_ || _).
+    { change (c :: r ++ b) with ((c :: r) ++ b). apply step_number_dich. reflexivity. }
+    apply Dich_ext, ext_err, generic_not_nil.
+Qed.
+
+Lemma Dich_norep : forall b r w,
+  Dich b r w ->
+  Dich b (match r with JS p1 s1 r0 _ e => JS p1 s1 r0 false e | JCrash x => JCrash x end)
+         (match w with JS p1 s1 r0 _ e => JS p1 s1 r0 false e | JCrash x => JCrash x end).
+Proof.
+  intros b [p1 s1 r1 d1 e1|x] [p2 s2 r2 d2 e2|y]; cbn [Dich ext]; auto.
+Qed.
+
+Lemma cur_cases : forall c,
+  c = jFailed \/ c = jStart \/ c = jArr \/ c = jArrValue \/ c = jArrNext \/ c = jDict \/ c = jDictField \/
+  c = jDictNextField \/ c = jDictFieldValue \/ c = jDictFieldValueSep \/ c = jDictFieldStateEnd \/
+  c = jNull \/ c = jTrue \/ c = jFalse \/ c = jString \/ c = jNumber \/ (c < 0 \/ 15 < c).
+Proof. intros c. ust. lia. Qed.
+
+Lemma jstep_dich : forall p s a b, inv p -> a <> [] ->
+  Dich b (jstep pf p s a) (jstep pf p s (a ++ b)).
+Proof.
+  intros p s a b Hi Ha. inv_split Hi.
+  destruct (cur_cases (jp_cur p)) as
+    [Hc|[Hc|[Hc|[Hc|[Hc|[Hc|[Hc|[Hc|[Hc|[Hc|[Hc|[Hc|[Hc|[Hc|[Hc|[Hc|Hc]]]]]]]]]]]]]]]].
+  - (* failed *)
+    unfold jstep. rewrite Hc. change (jFailed =? jFailed) with true. cbv iota.
+    apply Dich_ext, ext_err. destruct (jp_err p =? 0) eqn:E; [apply generic_not_nil|exact Her].
+  - rewrite !(jstep_start p s _ Hc). apply step_value_dich; auto.
+    + intros b'. rewrite (jstep_start p s _ Hc). apply ext_refl.
+    + left; reflexivity.
+  - rewrite !(jstep_arr p s _ Hc). apply step_array_dich; exact Hc.
+  - rewrite !(jstep_arrvalue p s _ Hc).
+    pose proof (step_value_dich p s a b jArrNext) as H.
+    match type of H with ?A -> ?B -> ?C -> _ => assert (H1 : A); [|assert (H2 : B); [|specialize (H H1 H2 Hst)]] end.
+    + intros b'. rewrite (jstep_arrvalue p s _ Hc).
+      destruct (step_value pf p s b' jArrNext) as [p1 s1 r1 d1 e1|w]; [|exact I].
+      cbn [ext]. rewrite app_nil_r. auto using peq_refl.
+    + right; right; reflexivity.
+    + apply Dich_norep in H.
+      destruct (step_value pf p s a jArrNext), (step_value pf p s (a ++ b) jArrNext); exact H.
+  - rewrite !(jstep_arrnext p s _ Hc). apply step_arr_value_end_dich; exact Hc.
+  - rewrite !(jstep_dict p s _ Hc). apply step_dict_dich. intros b'. apply jstep_dict; exact Hc.
+  - rewrite !(jstep_dictfield p s _ Hc). apply step_dict_key_dich; assumption.
+  - rewrite !(jstep_dictnext p s _ Hc). apply step_dict_dich. intros b'. apply jstep_dictnext; exact Hc.
+  - rewrite !(jstep_dictvalue p s _ Hc). apply step_value_dich; auto.
+    + intros b'. rewrite (jstep_dictvalue p s _ Hc). apply ext_refl.
+    + right; left; reflexivity.
+  - apply sep_dich; exact Hc.
+  - rewrite !(jstep_dictend p s _ Hc). apply step_dict_value_end_dich; exact Hc.
+  - rewrite !(jstep_null p s _ Hc). apply step_kind_dich; auto.
+    + intros q s' b' Hq. apply jstep_null. congruence.
+    + unfold zlen, kNull. cbn [length]. lia.
+  - rewrite !(jstep_true p s _ Hc). apply step_kind_dich; auto.
+    + intros q s' b' Hq. apply jstep_true. congruence.
+    + unfold zlen, kTrue. cbn [length]. lia.
+  - rewrite !(jstep_false p s _ Hc). apply step_kind_dich; auto.
+    + intros q s' b' Hq. apply jstep_false. congruence.
+    + unfold zlen, kFalse. cbn [length]. lia.
+  - rewrite !(jstep_string p s _ Hc). apply step_string_dich; assumption.
+  - rewrite !(jstep_number p s _ Hc). apply step_number_dich; assumption.
+  - rewrite !(jstep_other p s _ Hc). apply Dich_ext, ext_err, generic_not_nil.
+Qed.
+
 End JsonChunks.
